@@ -686,4 +686,42 @@ example : ({ bidOffer with outputs := setOutSats bidOffer.outputs 1 500 } : Tx).
   ⟨by simp [-List.reduceReplicate, Tx.wf, Input.wf, Output.wf, bidOffer, optLen, setOutSats, List.zipIdx],
    by simp [-List.reduceReplicate, Tx.ambiguous, bidOffer]⟩
 
+/-- **A completed bid with two dummies spends the seller's ordinal**: whenever `AcceptBidToBuy1SatOrdinal2Dummies` returns
+    a transaction (up to signing) for a well-formed offer, input 2 spends exactly the previous output listed for that
+    position and carries its value and script, and the outputs are the offer's with the bid amount and the seller's
+    script written into output 2. -/
+theorem accepted_bid2D_spends_the_ordinal (pstx tx : Tx) (prev : List UTXO) (bid : Nat) (fq : FeeQuote) (seller : Bytes)
+    (hwf : ({ pstx with outputs := setOutSats pstx.outputs 2 bid } : Tx).wf)
+    (hamb : ¬ ({ pstx with outputs := setOutSats pstx.outputs 2 bid } : Tx).ambiguous)
+    (h : acceptBid2D pstx prev bid fq seller = .ok tx) :
+    (∃ i u, tx.inputs[2]? = some i ∧ prev[2]? = some u ∧ i.prevTxID = u.txid ∧ i.vout = u.vout ∧
+        i.prevSats = u.sats ∧ i.prevScript = u.script) ∧
+    tx.outputs = setOutScript (setOutSats pstx.outputs 2 bid) 2 seller := by
+  unfold acceptBid2D at h
+  cases hv : validateBid2D pstx prev bid fq with
+  | none => simp [hv] at h
+  | some p =>
+    obtain ⟨hlen, hall, hp, _⟩ := bid2d_gate_protects_outpoints pstx p prev bid fq hv
+    subst hp
+    simp only [hv] at h
+    split at h
+    · simp at h
+    · rw [C01.parseExact_serialize _ hwf hamb] at h
+      simp only at h
+      cases hu : prev[2]? with
+      | none => simp [hu] at h
+      | some u =>
+        simp [hu] at h
+        subst h
+        refine ⟨?_, by simp [Tx.norm]⟩
+        have h2 : 2 < pstx.inputs.length := by
+          have := (List.getElem?_eq_some_iff.mp hu).1
+          omega
+        obtain ⟨i0, hi0⟩ : ∃ i0, pstx.inputs[2]? = some i0 := ⟨pstx.inputs[2], by simp [h2]⟩
+        obtain ⟨ht, hvout⟩ := hall 2 i0 u hi0 hu
+        refine ⟨{ (Input.norm false i0) with prevScript := u.script, prevSats := u.sats }, u, ?_, rfl, ?_⟩
+        · simp [setInPrev, Tx.norm, List.getElem?_map, hi0]
+        · simp [Input.norm, Input.normStd, ht, hvout]
+
+
 end GoBT.C20
